@@ -236,6 +236,9 @@ class E:
             return "(" + self.query.render(r) + ")"
         if k == "paren":
             return "(" + self.kids[0].render(r) + ")"
+        if k == "tmpl":
+            # a dialect-specific expression form given as text with {0} {1} ... holes for its operands: it depends on exactly its operands' columns
+            return self.fname.format(*[x.render(r) for x in self.kids])
         raise ValueError(k)
 
     def tags(self):
